@@ -816,6 +816,33 @@ def rule_errno_unique(ctx, R):
                     by.setdefault(const_value(b.value), []).append((st.name, st.lineno))
                     n += 1
     ctx.anchor(n >= 60, f"error classes with an errno in aiokafka.errors: {n} < 60")
+    # the table is built over ALL subclasses: a subclass that does not declare an errno of its own inherits its parent's and takes the
+    # parent's place in the table (children are visited after their parent), although handlers compare reply classes by identity
+    classes = {st.name: st for st in mod.tree.body if isinstance(st, ast.ClassDef)}
+
+    def own_errno(c_):
+        for b in c_.body:
+            if isinstance(b, ast.Assign) and len(b.targets) == 1 and unparse(b.targets[0]) == "errno" and isinstance(const_value(b.value), int):
+                return const_value(b.value)
+        return None
+
+    def eff_errno(name, depth=0):
+        c_ = classes.get(name)
+        if c_ is None or depth > 8:
+            return None
+        e = own_errno(c_)
+        if e is not None:
+            return e
+        for b in c_.bases:
+            e = eff_errno(unparse(b), depth + 1)
+            if e is not None:
+                return e
+        return None
+    for name, c_ in classes.items():
+        if own_errno(c_) is None:
+            e = eff_errno(name)
+            if e is not None:
+                by.setdefault(e, []).append((name + " (inherited)", c_.lineno))
     dup = {k: v for k, v in by.items() if len(v) > 1}
     ctx.rep.ob(R, f"{mod.relpath}:{min(l for v in dup.values() for _n, l in v) if dup else 1} aiokafka.errors", "aiokafka.errors|errno-unique", not dup,
                f"error codes declared by more than one class: { {k: [n_ for n_, _l in v] for k, v in sorted(dup.items())} } -- for_code() resolves such a code to the class "
